@@ -304,6 +304,33 @@ def extra_mutations(orig_xml, level, other_xml=None):
         emit("nest-assertion:original-first-inside-forged:no-own-signature", f)
         fa.append(copy.deepcopy(_sigchild(oac)))
         emit("nest-assertion:original-first-inside-forged:copy-last", f)
+    # --- near-miss identifiers: the forged element's ID is a proper suffix / prefix of the original's
+    #     (a reference test by endswith / startswith / substring would let the copied signature through)
+    for idkind, cut in (("suffix-id", lambda v: v[1:]), ("prefix-id", lambda v: v[:-1])):
+        if level in ("response", "both"):
+            oc = fresh()
+            f = forged_doc(rid=cut(oc.get("ID")))
+            h = ET.Element("{%s}Extensions" % SAMLP)
+            s = _sigchild(oc)
+            scopy = copy.deepcopy(s)
+            oc.remove(s)
+            h.append(oc)
+            f.insert(1, h)
+            f.insert(1, scopy)
+            emit("wrap-response:Extensions:orig-stripped:%s" % idkind, f)
+        if level in ("assertion", "both") and oa is not None and _sigchild(oa) is not None:
+            oc = fresh()
+            oac = oc.find(ASSERTION)
+            s = _sigchild(oac)
+            scopy = copy.deepcopy(s)
+            oac.remove(s)
+            f = forged_doc(aid=cut(oac.get("ID")))
+            fa = f.find(ASSERTION)
+            fa.insert(1, scopy)
+            h = ET.Element("{%s}Extensions" % SAMLP)
+            h.append(oac)
+            f.insert(1, h)
+            emit("wrap-assertion:Extensions:orig-stripped:%s" % idkind, f)
     # --- both signatures required: one message suffices under a first/last-wins tool, two are needed under a refusing one
     if level == "both":
         for second in ("same-message", "other-message"):
@@ -370,6 +397,18 @@ def signed_near_misses(level, alg=None):
     t.find(SIGNEDINFO).find(REFERENCE).set("URI", "")
     el.insert(1, t)
     out.append(("signer-made:reference-whole-document:%s" % level, sign(d)))
+    # (5) a Reference with an external URI (refused by --enabled-reference-uris empty,same-doc; the stand-in resolves
+    #     pv-ext: only when pysaml2 does NOT pass that option)
+    d = copy.deepcopy(base)
+    el = finder(d)
+    t = template()
+    import base64 as _b64
+    t.find(SIGNEDINFO).find(REFERENCE).set("URI", "pv-ext:" + _b64.b64encode(ET.tostring(el, encoding="utf-8")).decode())
+    el.insert(1, t)
+    try:
+        out.append(("signer-made:external-reference:%s" % level, sign(d)))
+    except Exception:
+        pass
     # (4) the element's signature is not a direct child (inside Issuer)
     d = copy.deepcopy(base)
     el = finder(d)
